@@ -217,23 +217,7 @@ def run(prog: Program, rep: Report, tier: str) -> None:
         rep.check(ok54, "R5.4", f"{m}", where, why54, f"one callback with {want_cls}", key=f"R5.4|{m}")
         # R5.7: on not-ON paths nothing depends on the bytes of the normalised fields
         if cat in ("WATER_HEATER", "POWER_PLUG"):
-            dspec0 = spec["devices"][want_cls[0]]["fields"]
-            st_term = expected_role(prog, spec, dspec0["device_state"], None)
-            cond_on = state_is_on(st_term, on)
-            norm_ranges = set(LS.nibble_ranges(LS.term_of(prog, spec["getters"]["get_power_consumption"], MSG), MSG))
-            if cat == "WATER_HEATER":
-                norm_ranges |= set(LS.nibble_ranges(LS.term_of(prog, spec["getters"]["get_remaining"], MSG), MSG))
-            bad57 = None
-            for o in outs:
-                if _neg(cond_on) not in o.state.pc:
-                    continue
-                for g in o.state.pc:
-                    if g == _neg(cond_on):
-                        continue
-                    touched = set(LS.nibble_ranges(g, MSG)) & norm_ranges
-                    if touched:
-                        bad57 = (f"on the path where {m} reports not-ON, the outcome ({'raises ' + o.exc_name if o.kind == 'raise' else 'delivery'}) depends on nibbles {sorted(touched)} of a field that is "
-                                 f"reported as zero in that state (guard {T.show(g)[:160]}): an OFF broadcast with an out-of-range value there is no longer delivered")
+            bad57 = ignored_field_dependence(prog, spec, m, cat, want_cls[0], outs, on)
             rep.check(bad57 is None, "R5.7", f"{m}", where, bad57 or "", key=f"R5.7|{want_cls[0]}")
         for fname, why in field_ok.items():
             rid = "R5.3"
@@ -248,6 +232,42 @@ def run(prog: Program, rep: Report, tier: str) -> None:
                 rep.bad(rid, inst, where, why, key=f"{rid}|{want_cls[0] if want_cls else '?'}|{fname}")
     rep.analysed["functions"] = sorted(funcs)
     rep.extra["programs"] = len(derived) + len(dt.enum.members)
+
+
+def ignored_field_dependence(prog: Program, spec: Dict[str, Any], m: str, cat: str, cls_name: str, outs: List[Outcome], on: T.Term) -> Optional[str]:
+    """On the paths where the device reports not-ON, does any guard read the bytes of a field that is
+    reported as zero in that state?  Returns the description of the dependence, or None."""
+    dspec0 = spec["devices"][cls_name]["fields"]
+    st_term = expected_role(prog, spec, dspec0["device_state"], None)
+    cond_on = state_is_on(st_term, on)
+    norm_ranges = set(LS.nibble_ranges(LS.term_of(prog, spec["getters"]["get_power_consumption"], MSG), MSG))
+    if cat == "WATER_HEATER":
+        norm_ranges |= set(LS.nibble_ranges(LS.term_of(prog, spec["getters"]["get_remaining"], MSG), MSG))
+    bad57 = None
+    for o in outs:
+        if _neg(cond_on) not in o.state.pc:
+            continue
+        for g in o.state.pc:
+            if g == _neg(cond_on):
+                continue
+            touched = set(LS.nibble_ranges(g, MSG)) & norm_ranges
+            if touched:
+                bad57 = (f"on the path where {m} reports not-ON, the outcome ({'raises ' + o.exc_name if o.kind == 'raise' else 'delivery'}) depends on nibbles {sorted(touched)} of a field that is "
+                         f"reported as zero in that state (guard {T.show(g)[:160]}): an OFF broadcast with an out-of-range value there is no longer delivered")
+    return bad57
+
+
+def parse_outcomes_for(prog: Program, m: str) -> Tuple[Interp, List[Outcome]]:
+    """Paths of _parse_device_from_datagram for a gate-passing datagram whose model is DeviceType.<m>."""
+    dt = prog.cls(f"{DEV}:DeviceType")
+    member = ("enum", EnumRef(dt.key, m))
+    stub = {"aioswitcher.bridge:DatagramParser.get_device_type": (lambda I, a, kw, st, ctx, node, _m=member: _m)}
+    fi = prog.func("aioswitcher.bridge:_parse_device_from_datagram")
+    I = Interp(prog, stubs=stub)
+    st = I.new_state()
+    st.minlen[MSG] = 159
+    outs = I.run(fi, {fi.params[0]: ("sym", "device_callback", "callable"), fi.params[1]: MSG}, st)
+    return I, outs
 
 
 def record(d: Dict[str, Optional[str]], key: str, why: Optional[str]) -> None:
